@@ -198,8 +198,8 @@ class LocalAdapter(Hub):
         p = jb["proc"]
         if p._started is not None and not p._started.done():
             p.do_started()
-        p.stdout = f"out of {tid}\n".encode()
-        p.stderr = f"err of {tid}\n".encode()
+        p.out_bytes = f"out of {tid}\n".encode()
+        p.err_bytes = f"err of {tid}\n".encode()
         p.do_exit(0 if how == "ok" else (-9 if p.sigkill else 1))
         p.do_drain()
         jb["last_result"] = "ok" if how == "ok" else "failed"
